@@ -116,6 +116,9 @@ pub struct Profile {
     pub twin_names: u32,
     /// block-style docs and line docs whose lines start in column 0 (percentage of lines)
     pub doc_col0: u32,
+    /// percentage of modules that get a "tower": a struct whose only field flattens a struct
+    /// made only of two or three flattened enums / structs
+    pub flatten_tower: u32,
 }
 
 impl Profile {
@@ -158,6 +161,7 @@ impl Profile {
             prefix_names: 0,
             twin_names: 0,
             doc_col0: 20,
+            flatten_tower: 0,
         }
     }
 }
@@ -257,6 +261,8 @@ struct Cx<'p> {
     flattened_here: std::collections::BTreeSet<usize>,
     doc_counter: usize,
     used_files: std::collections::BTreeSet<String>,
+    /// every named field that can be a flattened field becomes one
+    force_flatten: bool,
 }
 
 fn has_default(ty: &TyExpr) -> bool {
@@ -691,7 +697,7 @@ impl Cx<'_> {
         let mut f = Field { ident, ty: self.gen_ty(t, params), ..Field::default() };
         f.docs = self.gen_doc_at(t, true);
         // flatten
-        if named && allow_flatten && t.pct(self.p.flatten) {
+        if named && allow_flatten && (self.force_flatten || t.pct(self.p.flatten)) {
             // the same definition must not be flattened twice into one object (duplicate keys
             // in serde's output are a user error, not a binding defect)
             let cands: Vec<usize> = (0..self.types.len())
@@ -954,7 +960,21 @@ impl Cx<'_> {
                 0 => {
                     let n = 1 + t.weighted(&[20, 35, 30, 15]);
                     self.flattened_here.clear();
-                    let mut fields: Vec<Field> = (0..n).map(|_| self.gen_field(t, &params, true, &mut local, true)).collect();
+                    // now and then a struct made of flattened fields only (one or two)
+                    let flatten_only = params.is_empty() && self.p.flatten > 0 && t.pct(self.p.flatten / 2 + 2);
+                    let mut fields: Vec<Field> = if flatten_only {
+                        self.force_flatten = true;
+                        let k = 1 + t.choose(2);
+                        let mut fs: Vec<Field> = (0..k).map(|_| self.gen_field(t, &params, true, &mut local, true)).collect();
+                        self.force_flatten = false;
+                        fs.retain(|f| f.flatten);
+                        fs
+                    } else {
+                        vec![]
+                    };
+                    if fields.is_empty() {
+                        fields = (0..n).map(|_| self.gen_field(t, &params, true, &mut local, true)).collect();
+                    }
                     if t.pct(self.p.recursion) && params.is_empty() {
                         let (name, ty) = *t.pick(&[("next", "Option<Box<Self>>"), ("children", "Vec<Self>"), ("parent", "Option<Box<Self>>")]);
                         fields.push(Field { ident: Some(self.names.fresh(t, &[&[name]], &[100], "rec")), ty: TyExpr::SelfRef(ty), ..Field::default() });
@@ -1099,6 +1119,78 @@ pub fn prim_ts(p: &str) -> &'static str {
 }
 
 /// Generate one module from a tape.
+/// `struct Outer { #[flatten] m: Mid }` over `struct Mid { #[flatten] a: E1, #[flatten] b: E2 }`:
+/// the shapes in which the derive composes parenthesised unions with `&`.
+fn flatten_tower(cx: &mut Cx, t: &mut Tape) {
+    let disjoint = |cx: &Cx, chosen: &[usize], i: usize| {
+        let mut all = std::collections::BTreeSet::new();
+        for c in chosen {
+            cx.flatten_closure(*c, &mut all);
+        }
+        let mut mine = std::collections::BTreeSet::new();
+        cx.flatten_closure(i, &mut mine);
+        mine.is_disjoint(&all)
+    };
+    let want = 2 + t.choose(2);
+    let mut chosen: Vec<usize> = vec![];
+    // enums first, then anything flattenable
+    for pass in 0..2 {
+        for i in (0..cx.types.len()).rev() {
+            let is_enum = matches!(cx.types[i].body, Body::Enum(_));
+            if chosen.len() < want && !chosen.contains(&i) && cx.flattenable(i) && (is_enum || pass == 1) && disjoint(cx, &chosen, i) {
+                chosen.push(i);
+            }
+        }
+        if pass == 0 {
+            // a few more tries to get flattenable enums
+            for _ in 0..6 {
+                if chosen.len() >= 2 {
+                    break;
+                }
+                let td = cx.gen_type(t);
+                cx.types.push(td);
+                let i = cx.types.len() - 1;
+                if matches!(cx.types[i].body, Body::Enum(_)) && cx.flattenable(i) && disjoint(cx, &chosen, i) {
+                    chosen.push(i);
+                } else {
+                    cx.types.pop();
+                }
+            }
+        }
+    }
+    if chosen.len() < 2 {
+        return;
+    }
+    let plain = |cx: &mut Cx, t: &mut Tape, base: &str, fields: Vec<Field>| TypeDef {
+        ident: cx.names.fresh(t, &[&[base]], &[100], base),
+        lifetimes: vec![],
+        consts: vec![],
+        const_first: false,
+        const_default: false,
+        params: vec![],
+        body: Body::Named(fields),
+        attrs: ContainerAttrs::default(),
+        docs: None,
+    };
+    let mut fields = vec![];
+    for c in &chosen {
+        let mut ty = TyExpr::User(*c, vec![]);
+        if t.pct(20) {
+            ty = TyExpr::Wrap("Box", Box::new(ty));
+        }
+        fields.push(Field { ident: Some(cx.names.fresh(t, &[CONVENTIONAL_FIELDS], &[100], "fl")), ty, flatten: true, ..Field::default() });
+    }
+    let mid = plain(cx, t, "Mid", fields);
+    cx.types.push(mid);
+    let mid_idx = cx.types.len() - 1;
+    let mut outer_fields = vec![Field { ident: Some(cx.names.fresh(t, &[CONVENTIONAL_FIELDS], &[100], "fl")), ty: TyExpr::User(mid_idx, vec![]), flatten: true, ..Field::default() }];
+    if t.pct(30) {
+        outer_fields.insert(0, Field { ident: Some(cx.names.fresh(t, &[CONVENTIONAL_FIELDS], &[100], "fl")), ty: TyExpr::Prim("i32"), ..Field::default() });
+    }
+    let outer = plain(cx, t, "Tower", outer_fields);
+    cx.types.push(outer);
+}
+
 /// Name collisions a real code base has: a name that extends another name in the same file, and
 /// two types with one TypeScript name in different files.
 fn name_games(cx: &mut Cx, t: &mut Tape) {
@@ -1158,11 +1250,14 @@ fn name_games(cx: &mut Cx, t: &mut Tape) {
 
 pub fn gen_module(words: &[u32], profile: &Profile, name: &str) -> Module {
     let mut t = Tape::new(words);
-    let mut cx = Cx { p: profile, names: Names::new(), types: vec![], flattened_here: Default::default(), doc_counter: 0, used_files: Default::default() };
+    let mut cx = Cx { p: profile, names: Names::new(), types: vec![], flattened_here: Default::default(), doc_counter: 0, used_files: Default::default(), force_flatten: false };
     let n = 1 + t.choose(profile.max_types);
     for _ in 0..n {
         let td = cx.gen_type(&mut t);
         cx.types.push(td);
+    }
+    if profile.flatten > 0 && t.pct(profile.flatten_tower) {
+        flatten_tower(&mut cx, &mut t);
     }
     name_games(&mut cx, &mut t);
     let mut insts = vec![];
